@@ -23,8 +23,23 @@ type protoExec struct {
 	unrel  bool
 	healed bool
 	pre    string // the settled state right before an election / attach request (annotation for the oracle)
+	// the node that accepted BecomeLeader, per term: a second node accepting it in the same term is outside the
+	// coordinator's discipline - two leaders then compete for the followers (a same-term request turns a leader
+	// controller back into a follower), and what the nodes hold at a given moment is a matter of timing
+	ledBy map[int64]int
 	k      *cluster.Coord
 	rf     int
+}
+
+func (e *protoExec) noteLeader(term int64, i int) {
+	if e.ledBy == nil {
+		e.ledBy = map[int64]int{}
+	}
+	if j, ok := e.ledBy[term]; ok && j != i {
+		e.unrel = true
+		return
+	}
+	e.ledBy[term] = i
 }
 
 func (e *protoExec) close() {
@@ -155,7 +170,11 @@ func (e *protoExec) opInner(op string) string {
 		if rf == 0 {
 			rf = 1
 		}
-		return mark(e.c.BecomeLeader(i, int64(atoi(f[2])), uint32(rf), fm, 1500*time.Millisecond))
+		r := e.c.BecomeLeader(i, int64(atoi(f[2])), uint32(rf), fm, 1500*time.Millisecond)
+		if r == "ok" {
+			e.noteLeader(int64(atoi(f[2])), i)
+		}
+		return mark(r)
 	case "p.elect", "p.electm":
 		want, ok := node(f[1])
 		if !ok {
@@ -238,6 +257,7 @@ func (e *protoExec) opInner(op string) string {
 		}
 		r := e.c.BecomeLeader(best.i, term, uint32(len(members)), fm, 2500*time.Millisecond)
 		if r == "ok" {
+			e.noteLeader(term, best.i)
 			return mark(fmt.Sprintf("leader=%d", best.i))
 		}
 		if r == "timeout" {
